@@ -125,7 +125,7 @@ def nonul(rng, n):
 
 def build_args(rng, cls, tier):
     big = tier == 'thorough'
-    if cls in ('can', 'canfd', 'lin'):
+    if cls in ('can', 'canfd', 'lin', 'tecmpLin'):
         n = rng.choice([0, 1, 2, 7, 8, 9, 12, 15, 16, 20, 24, 32, 48, 63, 64, 65, 100, 254, 255, rng.randrange(256)])
         return {'data': [rng.randrange(256) for _ in range(n)]}
     if cls == 'eth':
@@ -144,8 +144,8 @@ def build_args(rng, cls, tier):
     raise ValueError(cls)
 
 
-BUILDERS = ['can', 'canfd', 'lin', 'eth', 'analog', 'cm', 'if']
-HDR_SIZE = {'can': 16, 'canfd': 16, 'lin': 8, 'eth': 6, 'analog': 16, 'cm': 26, 'if': 36}
+BUILDERS = ['can', 'canfd', 'lin', 'eth', 'analog', 'cm', 'if', 'tecmpLin']
+HDR_SIZE = {'can': 16, 'canfd': 16, 'lin': 8, 'eth': 6, 'analog': 16, 'cm': 26, 'if': 36, 'tecmpLin': 2}
 
 
 def builds(table, seed, tier, prefix='b'):
@@ -178,19 +178,24 @@ def builds(table, seed, tier, prefix='b'):
                     if cls == 'if':
                         bg[29] = rng.randrange(3)
                 same = None
-                if cls in ('can', 'canfd', 'lin', 'eth') and rng.random() < 0.35:
+                if cls in ('can', 'canfd', 'lin', 'eth', 'tecmpLin') and rng.random() < 0.35:
                     # a received-looking prior state: the size and the length field agree with each other, the other
                     # length-dependent bytes (DLC) need not; the first build then supplies data of exactly that length
                     # ("same length as before" shortcuts, round6a-4)
                     same = rng.choice([0, 1, 8, 12, 20, 64])
                     bg = bg[:HDR_SIZE[cls]] + [rng.randrange(256) for _ in range(same)]
+                    # the length field says what is there - or less than what is there (bytes behind the data, as a
+                    # receiver may see them): a build of exactly the present size must still rewrite it (round8c-1)
+                    declared = same if rng.random() < 0.6 else rng.randrange(same + 1)
                     if cls in ('can', 'canfd'):
-                        bg[15] = same
+                        bg[15] = declared
                         bg[14] = rng.choice([0, 15, rng.randrange(16)])
                     elif cls == 'lin':
-                        bg[7] = same
+                        bg[7] = declared
+                    elif cls == 'tecmpLin':
+                        bg[1] = declared
                     else:
-                        bg[4], bg[5] = same >> 8, same & 255
+                        bg[4], bg[5] = declared >> 8, declared & 255
                 ops = [{'op': 'load', 'cls': cls, 'raw': fix_background(cls, bg)}]
                 if same is not None:
                     ops.append({'op': 'setData', 'data': [rng.randrange(256) for _ in range(same)]})
